@@ -355,9 +355,13 @@ class Interp(ExprMixin, CallMixin):
         for k, v in list(sub.env.items()):
             if isinstance(v, ListV):
                 sub.env[k] = ListV(v.items, v.complete)
+                if getattr(v, 'shared_from', None):
+                    sub.env[k].shared_from = v.shared_from        # still the container of that class / module variable
             elif isinstance(v, DictV):
                 d = DictV(v.pairs, v.complete)
                 d.star = list(v.star)
+                if getattr(v, 'shared_from', None):
+                    d.shared_from = v.shared_from
                 sub.env[k] = d
         return sub
 
